@@ -156,7 +156,7 @@ fn p_inst(p: &P, slots: &BTreeMap<String, Name>, vars: &BTreeMap<String, T>) -> 
     }
 }
 
-pub const RULES: [(&str, &str, &str); 18] = [
+pub const RULES: [(&str, &str, &str); 19] = [
     ("slots-and-var", "(b (f $a $b) ?x)", "(b ?x (g $a $b))"),
     ("slots-and-var-under-binder", "(lam $z (b (f $z $a) ?x))", "(lam $z (b ?x (g $a $z)))"),
     ("dup", "(b ?x ?x)", "(u ?x)"),
@@ -176,6 +176,8 @@ pub const RULES: [(&str, &str, &str); 18] = [
     // depth 3: a slot of the grandchild is tied to a slot of the root
     ("deep-tie", "(b (h $a) (u (f $a $b)))", "(g $a $b)"),
     ("deep-tie-rev", "(b (h $a) (u (f $b $a)))", "(g $b $a)"),
+    // a 4-slot child whose orientation is pinned by a sibling
+    ("four-slots", "(b (b (f $a $b) (g $c $d)) (f $a $c))", "(t $a $b $d)"),
 ];
 
 /// companion rules: applied in the SAME apply_rewrites call, before or after the rule under test.  Each of them
@@ -399,6 +401,28 @@ fn presentations(inst: &T) -> Vec<Presentation> {
                     out.push(Presentation { label: format!("{} inserted instead of {}, whose class then absorbs the symmetric class of {} at {:?}", sp.to_sexp(), s.to_sexp(), o.to_sexp(), p), inserts: vec![variant.clone(), o.clone()], unions: vec![(o.clone(), o_perm.clone()), (sp.clone(), o.clone())] });
                     out.push(Presentation { label: format!("{} inserted instead of {}, whose class is then absorbed by the symmetric class of {} at {:?}", sp.to_sexp(), s.to_sexp(), o.to_sexp(), p), inserts: vec![variant, o.clone()], unions: vec![(o.clone(), o_perm.clone()), (o.clone(), sp.clone())] });
                 }
+            }
+        }
+    }
+    // a sub-term with 4 free names absorbs the class of the leaf q on which TWO independent symmetries were asserted
+    // by unions (a two-level stabilizer chain that cannot be re-derived from children); the instance is inserted with
+    // each group element applied to the sub-term, so that it is represented only through the transferred symmetries
+    for p in &pos {
+        let s = subterm_at(inst, p);
+        let x: Vec<Name> = s.fv().into_iter().collect();
+        if captures(inst, p) || x.len() != 4 || s.op == "q" || inst.to_sexp().contains("(q ") {
+            continue;
+        }
+        let q = |a: usize, b: usize, c: usize, d: usize| leaf("q", &[x[a], x[b], x[c], x[d]]);
+        let pre = vec![(q(0, 1, 2, 3), q(1, 0, 2, 3)), (q(0, 1, 2, 3), q(0, 1, 3, 2))];
+        for (k, perm) in [[1usize, 0, 2, 3], [0, 1, 3, 2], [1, 0, 3, 2], [0, 1, 2, 3]].iter().enumerate() {
+            let m: BTreeMap<Name, Name> = (0..4).map(|i| (x[i], x[perm[i]])).collect();
+            let sp = s.rename(&m);
+            let variant = replace_at(inst, p, &sp);
+            for absorbs in [true, false] {
+                let mut unions = pre.clone();
+                unions.push(if absorbs { (sp.clone(), q(0, 1, 2, 3)) } else { (q(0, 1, 2, 3), sp.clone()) });
+                out.push(Presentation { label: format!("{} inserted (group element {k}); its class {} the class of q, on which two independent symmetries were asserted, at {:?}", sp.to_sexp(), if absorbs { "absorbs" } else { "is absorbed by" }, p), inserts: vec![variant.clone(), q(0, 1, 2, 3)], unions });
             }
         }
     }
